@@ -32,6 +32,19 @@ structure Mon where
   running : List String := []                   -- keys whose fn is executing now
 
 def checkCase (j : Json) : Except String Verdict := do
+  -- callers released at the same instant: never two executions for one key in flight, every caller gets the value of an
+  -- execution of its own round
+  match (j.getObjVal? "stress").toOption with
+  | some sj =>
+    let mut v : Verdict := { nontrivial := true }
+    let num (k : String) : Int := (sj.getObjVal? k).toOption.bind (·.getInt?.toOption) |>.getD 0
+    let fst := ((sj.getObjVal? "first").toOption.bind (·.getStr?.toOption)).getD ""
+    v := v.cmp 0 "stress.maxInflight" (1 : Int) (num "maxInflight") ["C16"]
+    if num "maxInflight" > 1 then
+      v := v.mon "C16" "one_execution_per_key" 0 s!"{num "maxInflight"} executions for one key in flight at once ({num "callers"} callers released together, {num "rounds"} rounds)"
+    if num "strangers" != 0 then v := v.mon "C16" "joined_get_leaders_result" 0 fst
+    return v.br "stress"
+  | none => pure ()
   let ops ← jarr j "ops"
   let mut s := S.init
   let mut v : Verdict := {}
